@@ -24,6 +24,9 @@ func convertTWCC(feedback *rtcp.TransportLayerCC) []acknowledgement {
 		switch chunk := pc.(type) {
 		case *rtcp.RunLengthChunk:
 			for i := uint16(0); i < chunk.RunLength; i++ {
+				if offset >= int(feedback.PacketStatusCount) {
+					return acks
+				}
 				seqNr := feedback.BaseSequenceNumber + uint16(offset) // nolint:gosec
 				offset++
 				switch chunk.PacketStatusSymbol {
@@ -58,6 +61,9 @@ func convertTWCC(feedback *rtcp.TransportLayerCC) []acknowledgement {
 			}
 		case *rtcp.StatusVectorChunk:
 			for _, s := range chunk.SymbolList {
+				if offset >= int(feedback.PacketStatusCount) {
+					return acks
+				}
 				seqNr := feedback.BaseSequenceNumber + uint16(offset) // nolint:gosec
 				offset++
 				switch s {
